@@ -24,7 +24,7 @@ EXPLANATION = (
     'empty key and the key itself and nothing else; (R3) exclusive end bounds of variable-length key prefixes are computed '
     'by a successor that can shorten, increment_by_one / prefix_successor evaluated on concrete byte strings (trailing '
     '0xFF runs, all-0xFF, empty); (R4) prefix-removal bounds derive from the namespace/author/key of the entry inserted; '
-    '(R5) no store mutation precedes a NotInserted return. (R6) the store-actor handlers of InsertLocal / DeletePrefix / InsertRemote evaluated (K14b): every offered entry reaches the replica, the removed-count of a deletion is what is answered. (R7) = C06.R4 failing-body rows. NOT decided: commutativity/idempotence over all permutations as '
+    '(R5) no store mutation precedes a NotInserted return. (R6) the store-actor handlers of InsertLocal / DeletePrefix / InsertRemote evaluated (K14b): every offered entry reaches the replica, the removed-count of a deletion is what is answered. (R7) = C06.R4 failing-body rows. (R8) = C05.R6: index rows left behind by a prune are skipped by key-ordered scans. NOT decided: commutativity/idempotence over all permutations as '
     'such (value-level).'
 )
 ASSUMPTIONS = [
@@ -841,6 +841,23 @@ def r7(ctx):
     C06.share_failing_body(ctx, "C02.R7")
 
 
+def r8(ctx):
+    """what a replica *shows* must not depend on the order of arrival either: index rows left behind by a prune (they exist only on
+    the replica that pruned) are skipped by the key-ordered scan, they do not end it (the stale-row cells of C05.R6)"""
+    from . import C05
+    sub = type(ctx)(ctx.prop, ctx.tier, ctx.facts, ctx.cfg)
+    C05.r6(sub)
+    for o in sub.obligations:
+        o = dict(o)
+        o["key"] = re.sub(r"^C\d\d\.R\w+", "C02.R8", o["key"])
+        o["rule"] = "C02.R8"
+        ctx.obligations.append(o)
+        if o["status"] != "holds":
+            ctx.violations.append(o)
+    ctx.analysed_bodies |= sub.analysed_bodies
+    ctx.floor("C02.R8", 2)
+
+
 def run(ctx):
     ctx.run_rule("C02.R1", r1)
     ctx.run_rule("C02.R2", r2)
@@ -849,3 +866,4 @@ def run(ctx):
     ctx.run_rule("C02.R5", r5)
     ctx.run_rule("C02.R6", r6)
     ctx.run_rule("C02.R7", r7)
+    ctx.run_rule("C02.R8", r8)
